@@ -25,6 +25,14 @@ def scenarios(tier, seed):
     for b in bases:
         for i, ports in enumerate(profs if tier == "thorough" else profs[:2]):
             out.append(scenario("%s-p%d" % (b, i), b, ports, seed * 131 + i, tech=dict(tREFI=1800 + 37 * i)))
+    # the schedule named in the property: a row opened just before the refresh request. A port issues one row-miss command every
+    # (tREFI - 3) cycles, so the distance between its ACT and the refresher's precharge-all slides through every offset.
+    for b, refi_ns, clk in ([("SDR166", 1200, 166000), ("DDR3_200", 1000, 200000)] if tier == "quick" else
+                            [("SDR", 1500, 100000), ("SDR166", 1200, 166000), ("DDR", 1500, 100000), ("DDR3", 1500, 100000), ("DDR3_200", 1000, 200000), ("DDR4", 1200, 150000)]):
+        cyc = int(refi_ns * clk / 1e6)
+        out.append(scenario("%s-refresh-race" % b, b, [dict(profile="samebank_altrow", ncmd=cyc + 40, gap=cyc - 3, partial=0.0),
+                                                     dict(profile="pingpong", ncmd=(cyc + 40) // 2, gap=2 * cyc - 7, seed=5)],
+                            seed * 3 + 1, tech=dict(tREFI=refi_ns), max_cycles=400000))
     from . import c02
     return out + c02.lockstep_scenarios(tier, seed)[:2] + mux_lockstep_scenarios(tier, seed)
 
